@@ -15,7 +15,7 @@ import itertools
 import logging
 
 PROPERTY = "C14"
-RULE = ("route: the three L_Data codes x {group, broadcast, own individual, foreign individual} x all 256 first TPDU octets x "
+RULE = ("route: the three L_Data codes x {group, broadcast, own individual, foreign individual, individual 0.0.0 (interface elsewhere), group address with the raw value of the own address, individual 0.0.0 and foreign individual with the interface at its default 0.0.0} x all 256 first TPDU octets x "
         "{plain APDU, Data Secure APDU, no APDU} and all 256 message codes x a TPCI dictionary (the outcome of the other 253 codes does not "
         "depend on the TPDU) - exhaustive in thorough; all codes x 4 frames + L_Data codes x dictionary + random in quick; "
         "sched: 1-3+ concurrent senders x interface behaviours {immediate, delayed 0.1 s, slow 2.5 s, error, local confirmation} with "
@@ -41,7 +41,14 @@ OWN = 0x11FA      # 1.1.250
 FOREIGN = 0x1105
 SRC = 0x1101
 GROUP = 0x0901
-DST = {"g": (True, GROUP), "b": (True, 0), "o": (False, OWN), "f": (False, FOREIGN)}
+# destination kind -> (address-type bit, raw destination, the interface's own individual address)
+#   g group, b broadcast, o own individual, f foreign individual (interface at 1.1.250)
+#   z individual 0.0.0 (not a broadcast: the address-type bit is clear), G a group address whose raw value equals the own address
+#   Z individual 0.0.0 and Y foreign individual while the interface still has the default address 0.0.0
+DST = {"g": (True, GROUP, OWN), "b": (True, 0, OWN), "o": (False, OWN, OWN), "f": (False, FOREIGN, OWN),
+       "z": (False, 0, OWN), "G": (True, OWN, OWN), "Z": (False, 0, 0), "Y": (False, FOREIGN, 0)}
+DSTS = "gbofzGZY"
+IS_OWN = {k: (not v[0]) and v[1] == v[2] for k, v in DST.items()}
 
 _SECURE_APDU = None
 
@@ -65,7 +72,7 @@ def build_raw(code, dst, tpdu0, pay):
     if code in MPROP:
         # a well-formed M_Prop* frame (object type 0x000B, instance 1, property 52, 1 element from index 1)
         return bytes([code, 0x00, 0x0B, 0x01, 52, 0x10, 0x01, *MPROP[code]])
-    grp, addr = DST[dst]
+    grp, addr, _own = DST[dst]
     if pay == "n":
         tpdu = bytes([tpdu0])
     elif pay == "p":
@@ -86,7 +93,7 @@ def tpdu0_for(tpci, pay):
 
 
 class _Probe:
-    def __init__(self):
+    def __init__(self, own=OWN):
         from xknx import XKNX
         from xknx.management.management import Management
         from xknx.telegram import IndividualAddress
@@ -106,7 +113,8 @@ class _Probe:
         self.log = None
         self.real_mgmt = False
         self.xknx = XKNX()
-        self.xknx.current_address = IndividualAddress(OWN)
+        if own:
+            self.xknx.current_address = IndividualAddress(own)   # own == 0: the constructor default is kept
         self.xknx.management = M(self.xknx)
         self.xknx.telegram_queue.register_data_secure_group_key_issue_cb(self._key)
 
@@ -140,7 +148,7 @@ def run_route(op):
             asyncio.get_event_loop()
         except RuntimeError:
             setup()
-    p = _Probe()
+    p = _Probe(DST[dst][2])
     x = p.xknx
     ev = x.cemi_handler._l_data_confirmation_event  # noqa: SLF001
     try:
@@ -168,18 +176,19 @@ def route_oracle(op, out):
         if f["q"] or f["m"] or f["k"]:
             return f"frame with message code {code:#x} was delivered upward: {out}"
         return None
-    grp, _ = DST[dst]
+    grp = DST[dst][0]
+    own = IS_OWN[dst]
     octet = tpdu0
-    is_group_data = grp and dst == "g" and (octet & 0xFC) == 0x00 and pay == "p"
+    is_group_data = grp and dst in "gG" and (octet & 0xFC) == 0x00 and pay == "p"
     if is_group_data and (f["q"] != 1 or f["m"]):
         return f"group-addressed data frame not delivered to the telegram queue exactly once: {out}"
     if f["q"] and not is_group_data:
         return f"a frame that is not plain group data reached the telegram queue: {out}"
-    if f["m"] and not grp and dst != "o":
+    if f["m"] and not grp and not own:
         return f"point-to-point frame for a foreign address reached management: {out}"
     if dst == "b" and pay == "p" and (octet & 0xFC) == 0x00 and f["m"] != 1:
         return f"broadcast frame not delivered to management: {out}"
-    if dst == "o" and f["m"] != 1:
+    if own and f["m"] != 1:
         # every parseable, plain point-to-point frame for this interface goes to management
         ctrl, numbered = octet & 0x80, octet & 0x40
         seq, flags = (octet >> 2) & 0xF, octet & 3
@@ -425,29 +434,29 @@ def generate(rng, tier):
     codes_known = sorted({m.value for m in CEMIMessageCode})
     if tier == "thorough":
         for code in (0x29, 0x11, 0x2E):
-            for dst in "gbof":
+            for dst in DSTS:
                 for tp in range(256):
                     for pay in "psn":
                         if tpdu0_for(tp, pay) == tp:
                             yield {"op": f"c14 route {code} {dst} {tp} {pay}"}
         for code in range(256):
-            for dst in "gbof":
+            for dst in DSTS:
                 for tp in TPCI_DICT:
                     for pay in "psn":
                         yield {"op": f"c14 route {code} {dst} {tpdu0_for(tp, pay)} {pay}"}
     else:
         for code in range(256):
-            for dst, tp, pay in (("g", 0, "p"), ("o", 0x80, "n"), ("o", 0x44, "p"), ("g", 3, "s")):
+            for dst, tp, pay in (("g", 0, "p"), ("o", 0x80, "n"), ("o", 0x44, "p"), ("g", 3, "s"), ("z", 0x80, "n"), ("Z", 0x44, "p")):
                 yield {"op": f"c14 route {code} {dst} {tp} {pay}"}
         for code in (0x29, 0x11, 0x2E):
-            for dst in "gbof":
+            for dst in DSTS:
                 for tp in TPCI_DICT:
                     for pay in "psn":
                         yield {"op": f"c14 route {code} {dst} {tpdu0_for(tp, pay)} {pay}"}
         for _ in range(1500):
             code = rng.choice(codes_known) if rng.random() < 0.8 else rng.randrange(256)
             pay = rng.choice("ppsn")
-            yield {"op": f"c14 route {code} {rng.choice('gbof')} {tpdu0_for(rng.randrange(256), pay)} {pay}"}
+            yield {"op": f"c14 route {code} {rng.choice(DSTS)} {tpdu0_for(rng.randrange(256), pay)} {pay}"}
     # schedules
     acts = ["con", "S", "grp", "tdc", "own", "req", "conp", "bc", "frn", "tcon", "sec", "bad"]
     mode_sets = [("now",), ("dly",), ("err",), ("loc",), ("slow",), ("dly", "now"), ("slow", "dly"), ("err", "now"), ("now", "err", "dly")]
